@@ -10,7 +10,7 @@ import (
 // delivered to a receiving node (acc-*), or a sweep of compact difficulty encodings (compact).
 type C16Plan struct {
 	Seed uint64
-	Mode string // tile-tdpos | tile-xpoa | acc-single | acc-tdpos | acc-xpoa | acc-pow | compact
+	Mode string // tile-tdpos | tile-xpoa | acc-single | acc-tdpos | acc-xpoa | acc-pow | compact | acc-upgrade
 	Sch  C16Sched
 	Pow  C16Pow
 	// tiling
@@ -29,6 +29,28 @@ type C16Plan struct {
 	// life of the receiving node around them; empty: the configured list stays in force
 	VC []C16Ev
 	Restarts []int `json:"restarts,omitempty"` // acc-pow / acc-tdpos / acc-single: the receiver is re-opened from its disk before these steps
+	// acc-upgrade: the chain starts under `single` and is upgraded on chain to another consensus
+	Up *C16Up `json:"up,omitempty"`
+}
+
+// C16Up describes an acc-upgrade run: a chain whose genesis consensus is `single` (miner M0) is
+// upgraded by a real transaction that invokes the updateConsensus method of the $consensus kernel
+// contract, carried by an honest block of M0.
+type C16Up struct {
+	New  string   // the new consensus: pow (configuration: Plan.Pow) | xpoa (Plan.Sch.Period / BlockNum, validator list Set) | single (miner Set[0])
+	Set  []int    // xpoa: the validator list; single: its first member is the new miner
+	Pre  int      // candidate steps delivered under the genesis rule before the block that carries the upgrade
+	HArg int64    // the "height" argument of updateConsensus, relative to the height of the block that carries the transaction
+	Fill int      // honest blocks under the new rule right after the upgrade came into force
+	Ev   []C16UEv // what happens once the upgrade is in force
+}
+
+// C16UEv is one event of an acc-upgrade run after the upgrade.
+type C16UEv struct {
+	At   int   // before this candidate step
+	Kind int   // 0: an honest block under the rule in force; 1: a block of the old producer M0 that is perfectly valid under the old rule; 2: the receiver restarts on its disk; 3: a restart attempt during which one read of the newest consensus instance's constructor fails; 4: a restart attempt during which one read anywhere during start-up fails
+	Arg  int   // 3: which read of the constructor (modulo their number); 4: which read of the start-up (per mille of their number)
+	DtMs int64 // 0, 1: timestamp advance
 }
 
 // C16Ev is one event of an xpoa run with on-chain validator changes.
@@ -83,7 +105,7 @@ func GenC16Plan(rt *rapid.T, tier string) *C16Plan {
 	th := tier == "thorough"
 	p := &C16Plan{}
 	p.Seed = rapid.Uint64Range(1, 1<<40).Draw(rt, "seed")
-	modes := []string{"tile-tdpos", "tile-tdpos", "tile-tdpos", "acc-tdpos", "acc-tdpos", "acc-tdpos", "tile-xpoa", "tile-xpoa", "acc-xpoa", "acc-xpoa", "acc-single", "acc-pow", "acc-pow", "acc-pow", "compact", "acc-xpoa"}
+	modes := []string{"tile-tdpos", "tile-tdpos", "tile-tdpos", "acc-tdpos", "acc-tdpos", "acc-tdpos", "tile-xpoa", "tile-xpoa", "acc-xpoa", "acc-xpoa", "acc-single", "acc-pow", "acc-pow", "acc-pow", "compact", "acc-xpoa", "acc-upgrade", "acc-upgrade"}
 	p.Mode = modes[rapid.IntRange(0, len(modes)-1).Draw(rt, "mode")]
 	periods := []int64{3, 2, 4, 5, 7, 10, 16}
 	if th {
@@ -207,6 +229,38 @@ func GenC16Plan(rt *rapid.T, tier string) *C16Plan {
 			p.VC = append(p.VC, C16Ev{Kind: role})
 		}
 		p.Full = s.Period*s.BlockNum*int64(len(ev.Set))*int64(p.Terms+1) <= lim
+	}
+	// consensus upgrade on chain (drawn last; the smallest draws: to pow, at once, nothing else happens)
+	if p.Mode == "acc-upgrade" {
+		u := &C16Up{}
+		u.New = []string{"pow", "xpoa", "pow", "xpoa", "xpoa", "pow", "xpoa", "single"}[rapid.IntRange(0, 7).Draw(rt, "up-new")]
+		u.Set = c16DrawSet(rt)
+		if u.New == "single" && u.Set[0] == 0 {
+			u.Set[0] = 1 + rapid.IntRange(0, c16Pool-2).Draw(rt, "up-miner")
+		}
+		u.Pre = rapid.IntRange(0, 3).Draw(rt, "up-pre")
+		if u.Pre > len(p.Steps)-1 {
+			u.Pre = len(p.Steps) - 1
+		}
+		u.HArg = c16Pick(rt, "up-harg", []int64{0, 0, 1, -1, 3})
+		u.Fill = rapid.IntRange(0, 4).Draw(rt, "up-fill")
+		nEv := rapid.IntRange(0, 7).Draw(rt, "up-events")
+		for e := 0; e < nEv; e++ {
+			ev := C16UEv{}
+			ev.At = rapid.IntRange(u.Pre, len(p.Steps)).Draw(rt, "up-at")
+			ev.Kind = int(c16Pick(rt, "up-kind", []int64{0, 1, 1, 2, 2, 3, 3, 3, 4, 5}))
+			ev.Arg = rapid.IntRange(0, 999).Draw(rt, "up-arg")
+			ev.DtMs = c16Pick(rt, "up-dt", []int64{1000, 1, 0, 7000, 40000, 200000})
+			u.Ev = append(u.Ev, ev)
+		}
+		sort.SliceStable(u.Ev, func(i, j int) bool { return u.Ev[i].At < u.Ev[j].At })
+		if u.New == "pow" {
+			for i := range p.Steps {
+				p.Steps[i].BitsVar = int(c16Pick(rt, "bitsvar", []int64{0, 0, 0, 0, 1, 2, 3, 4, 5, 6, 7}))
+				p.Steps[i].Grind = int(c16Pick(rt, "grind", []int64{0, 0, 0, 0, 1, 1, 2}))
+			}
+		}
+		p.Up = u
 	}
 	return p
 }
